@@ -104,6 +104,8 @@ func runC03(c *Ctx) {
 		c.undecided("R1", "files-loop", p.Pos(ep.Pos()), "no loop over the files parameter")
 		return
 	}
+	// the value loop: blocks after the call from which the call is reached again without going
+	// through the files loop's header
 	inner := map[*ssa.BasicBlock]bool{}
 	for b := range reachableFrom(dec.Block().Succs, map[*ssa.BasicBlock]bool{filesLoop.Header: true}) {
 		if b != filesLoop.Header && reachableFrom([]*ssa.BasicBlock{b}, map[*ssa.BasicBlock]bool{filesLoop.Header: true})[dec.Block()] {
@@ -111,21 +113,26 @@ func runC03(c *Ctx) {
 		}
 	}
 	inner[dec.Block()] = true
+	// the ways from the Decode call on to the next file (or past the last one): every edge into the
+	// header of the files loop from a block reached after the call
+	after := reachableFrom(dec.Block().Succs, map[*ssa.BasicBlock]bool{filesLoop.Header: true})
+	after[dec.Block()] = true
 	nExit := 0
-	for b := range inner {
+	for b := range after {
+		if b == filesLoop.Header {
+			continue
+		}
 		for _, s := range b.Succs {
-			if inner[s] {
+			if s != filesLoop.Header {
 				continue
 			}
-			if rs := reachableFrom([]*ssa.BasicBlock{s}, nil); !rs[filesLoop.Header] && !rs[filesLoop.Done] {
-				continue // leaving by return only
-			}
 			nExit++
-			g := F.OnEdge(b, s)
 			eof := false
-			for _, rl := range g.Rels() {
-				if rl.op == relEQ && rl.x == ssa.Value(dec) && p.Render(rl.y) == "EOF" {
-					eof = true
+			for _, g := range []factSet{F.OnEdge(b, s), F.At(b)} {
+				for _, rl := range g.Rels() {
+					if rl.op == relEQ && rl.x == ssa.Value(dec) && p.Render(rl.y) == "EOF" {
+						eof = true
+					}
 				}
 			}
 			c.check(eof, "R1", fmt.Sprintf("decode-loop-exit #%d", nExit), p.InstrPos(b.Instrs[len(b.Instrs)-1]), "the value loop ends only when Decode returned io.EOF", "the value loop of a file can be left (to the next file / END rules) on an edge where Decode's error is not known to be io.EOF: a fault is treated as end of input")
